@@ -121,6 +121,54 @@ TEXT = {
                 "app-signed approval for another change relocated to this change's path is counted (reproduced from corpus/C09).",
         "technique": "Lean 4 proof (lookup exactness, approver-merge invariants) + differential correspondence on generated attestation trees",
     },
+    "C04": {
+        "text": "Model/Log.lean follows pkg/rsl's readers loop by loop (GetEntry, GetParentForEntry, GetLatestReferenceUpdaterEntry with all nine options, "
+                "GetFirstEntry / GetFirstReferenceUpdaterEntryForRef, GetNonGittufParentReferenceUpdaterEntryForEntry, GetFirstReferenceUpdaterEntryForCommit, "
+                "GetReferenceUpdaterEntriesInRange[ForRef]). Proved in Lean, for every store, every log length and every option combination (options universally "
+                "quantified): C04_latest_refines_general / C04_latest_refines — on a chain whose links pass GetParentForEntry, complete (ChainInv) or cut short by a "
+                "tampered link, the reader (F5/F24 repaired) returns exactly the entry and exactly the annotations of the list specification latestSpec "
+                "(takeWhile/dropWhile/find? over the log), not-found when nothing qualifies, and the tamper error whenever the scan has to leave the well-formed "
+                "prefix; C04_latest_refines_asis_partial — the same for the code as it stands for all options except UntilEntryID and before+UntilEntryNumber; "
+                "C04_first_refines / C04_first_fail_closed (GetFirstEntry / GetFirstReferenceUpdaterEntryForRef), C04_range_refines (GetReferenceUpdaterEntriesInRange[ForRef], all "
+                "annotations incl. those recorded after the range), C04_nonGittufParent_refines, C04_forCommit_refines (any reachability oracle) — the same refinement, on "
+                "complete and tampered chains, for every other exported reader; C04_step_branch / _garbage / _number / _ok — "
+                "GetParentForEntry refuses exactly extra parents, numbering breaks and non-entries; C04_walk_fail_closed — every reader loop returns the tamper "
+                "error when it has to step over such a link; C04_F5_witness(2) / C04_F24_witness / C04_latest_asis_false — the unrestricted statement about the code "
+                "as it stands is false. All readers are compared with the real code and judged against the list specs on real repositories, including every single-point corruption.",
+        "note": TB + "Open findings F5 (UntilEntryID exclusive / not stopping when the until entry is examined first) and F24 (before bound = until number examines one entry "
+                "too many) are reproduced by the model with Fix={} and flagged KNOWN-FINDING. C04_range_refines assumes an annotation lists an id once (otherwise the Go map repeats the annotation; the driver compares as sets). "
+                "AnnBackward (annotations name older entries only) is a hypothesis of the refinement theorems; C03_step_annBackward proves that recording establishes it.",
+        "technique": "Lean 4 proof (reader loops = list machine = list specification) + differential correspondence on real repositories",
+    },
+    "C03": {
+        "text": "Model/Log.lean `step` follows Commit / CommitWithoutNumber of reference, annotation and propagation entries (setEntryNumber, the referenced-id check, "
+                "commitEntry → one commit whose parent is the current tip). Proved in Lean for every store and every operation with arbitrary ref names, targets, flags and "
+                "messages: C03_init; C03_chain_shape — ChainInv in the property's words (every entry but the first has exactly one parent, the next entry of the log, and "
+                "is numbered parent+1, 1 right after unnumbered entries; the first has none); C03_step_exact — on a well-formed log a successful operation appends exactly one fresh commit, numbered previous+1 (1 on an empty or "
+                "unnumbered log, 0 for the legacy operations), and a failed one leaves the store unchanged; C03_step_inv — ChainInv is preserved; C03_step_extends — "
+                "append-only, old tip stays an ancestor (no hypothesis at all); C03_failed_unchanged; C03_annotate_refused / C03_annotate_accepted — an annotation is "
+                "written iff every id it names is a well-formed entry of the store; C03_skipAll_shape / C03_skipAll_inv — SkipAllInvalidReferenceEntriesForRef writes nothing or exactly one skip annotation through the same path; "
+                "C03_step_annBackward — recorded annotations name only older, stored entries (the hypothesis of the C04 theorems); C03_run_inv — lifted by induction to every prefix of every operation sequence "
+                "(C03_numbered_admissible: any sequence of numbered operations whose annotations name at least one entry); C03_F25 — the unrestricted statement is false: "
+                "an annotation naming no entry is accepted and leaves an unparsable tip. Real op sequences through pkg/rsl are compared commit by commit with the model "
+                "after every operation using an independent git cat-file reader, and ChainInv / Extends / exactness are evaluated on the implementation's chain.",
+        "note": TB + "Open finding F25 (annotation without ids bricks the log) is reproduced by the model and flagged KNOWN-FINDING. SkipAllInvalidReferenceEntriesForRef is modelled and driven directly; policy State.Commit / policy.Apply / "
+                "Attestations.Commit are driven through their real entry points, but whether they record is taken from the observation (the policy layer is not modelled here) "
+                "and only their effect on the RSL (one reference entry, chain shape, append-only) is compared and judged. "
+                "Legacy (CommitWithoutNumber) operations are admissible only while the log is unnumbered.",
+        "technique": "Lean 4 proof (invariant preserved by each operation, induction over sequences) + differential correspondence on real repositories",
+    },
+    "C19": {
+        "text": "Lean model of VerifyMergeable (latest policy / attestations, merge tree for fast-forward shapes, relaxed threshold, file "
+                "rules) next to the model of verification. Proved for every verifier list, signature, envelope and approver set: the "
+                "answer 'signature needed' arises only when some rule with threshold t has exactly t-1 counted principals of its own "
+                "(C19_need_means_one_short); 'no signature needed' only when a verifier accepted outright or its own counted principals "
+                "reach its threshold (C19_no_need_means_met). The agreement statement C19_statement is checked on the REAL code: "
+                "prediction, then the merge recorded by each candidate recorder and verified.",
+        "note": TB + "Only fast-forward merges. Open findings on this tree: F27 (threshold-1 rules are reported 'not possible' without "
+                "approvals), F28 (an authorization envelope without signatures makes the prediction fail hard), F1 (global rules).",
+        "technique": "Lean 4 proof (case analysis / induction over the verifier loop) + differential correspondence: predict, record, verify",
+    },
 }
 
 NOT_YET = {}
